@@ -131,7 +131,7 @@ def build(kind, good):
         from valjean.javert.templates import TableTemplate, PlotTemplate, TextTemplate, CurveElements, SubPlotElements
         table = TableTemplate(ref.bins['e'][:-1].copy(), ref.value.ravel()[:len(ref.bins['e']) - 1].copy(), other.value.ravel()[:len(ref.bins['e']) - 1].copy(),
                               headers=['e', 'ref', 'other'], highlights=[np.zeros(len(ref.bins['e']) - 1, dtype=bool)] * 2 + [np.array([True] + [False] * (len(ref.bins['e']) - 2))])
-        curve = CurveElements(values=np.array([1.0, 4.0, 2.0]), bins=OrderedDict([('x', np.array([0.0, 1.0, 2.0, 3.0]))]), legend='user curve',
+        curve = CurveElements(values=np.array([1.0, 4.0, 2.0]), bins=[np.array([0.0, 1.0, 2.0, 3.0])], legend='user curve',
                               errors=np.array([0.1, 0.2, 0.1]))
         plot = PlotTemplate(subplots=[SubPlotElements(curves=[curve], axnames=['x', 'user quantity'])])
         text = TextTemplate('The user ran this comparison elsewhere.\n\n')
